@@ -301,7 +301,16 @@ F8includes ==
          GFile(<<"g">>, <<>>, <<>>, <<>>, <<Text(<<S("G"), P(EB)>>)>>) >> :
         r \in RefsTo(MainSegs, "b"), r2 \in {Ref(MainSegs, <<"..", "g">>, FALSE, ""), Ref(MainSegs, <<"g">>, TRUE, ".wxml"),
                                              Ref(MainSegs, <<"nowhere">>, FALSE, "")} }
-F8 == F8imports \cup F8includes
+(* includes as the branches of an if-chain and as the body of a list: they are dependencies like any other *)
+F8branches ==
+    { << GFile(MainSegs, <<>>, <<>>, <<>>,
+               <<If(<<[c |-> EV(EA), ch |-> <<IncludeR(r)>>], [c |-> EV(EB), ch |-> <<IncludeR(Ref(MainSegs, <<"..", "g">>, FALSE, ""))>>]>>, TRUE,
+                    <<IncludeR(Ref(MainSegs, <<"d", "c">>, TRUE, ".wxml"))>>),
+                 For(EV(Id("l")), "item", "index", "", <<IncludeR(Ref(MainSegs, <<"c">>, FALSE, ""))>>)>>),
+         GFile(<<"d", "b">>, <<>>, <<>>, <<>>, <<Text(<<S("B"), P(EA)>>)>>),
+         GFile(<<"d", "c">>, <<>>, <<>>, <<>>, <<Text(<<S("C")>>)>>),
+         GFile(<<"g">>, <<>>, <<>>, <<>>, <<Text(<<S("G"), P(EB)>>)>>) >> : r \in RefsTo(MainSegs, "b") }
+F8 == F8imports \cup F8includes \cup F8branches
 
 -----------------------------------------------------------------------------
 Cases == CASE Family = "F8" -> F8 [] Family = "F7" -> F7 [] Family = "F1" -> F1 [] Family = "F2" -> F2 [] Family = "F3" -> F3 [] Family = "F4" -> F4
